@@ -39,8 +39,14 @@ fn rx_escape(s: &str) -> String {
 fn rx_escape_delim(s: &str) -> String {
     rx_escape(s).replace("\\/", "/")
 }
+/// scanner state names: even states get a name that sorts BEFORE "INITIAL" so that name order differs from state order
 fn mode_name(i: usize) -> String {
-    if i == 1 { "INITIAL".into() } else { format!("M{i}") }
+    if i == 1 { "INITIAL".into() } else if i % 2 == 0 { format!("A{i}") } else { format!("M{i}") }
+}
+/// a literal lookahead written as a regular expression of one-character classes (`/[a][b]/` for "ab"): same language, but a
+/// different literal kind than the raw terminal it belongs to and with regex meta characters
+fn la_regex(s: &str) -> String {
+    s.chars().map(|c| format!("[{}]", rx_escape(&c.to_string()))).collect()
 }
 
 /// PAR text of a scanner configuration of Scanner.tla's catalogue
@@ -127,8 +133,8 @@ pub fn render_par_ext(def: &Value, lr: bool, split: bool) -> String {
             k => panic!("unsupported pattern kind {k}"),
         };
         let la = match t["la"].as_str().unwrap() {
-            "pos" => format!(" ?= '{}'", chars(&t["las"])),
-            "neg" => format!(" ?! '{}'", chars(&t["las"])),
+            "pos" => format!(" ?= /{}/", la_regex(&chars(&t["las"]))),
+            "neg" => format!(" ?! /{}/", la_regex(&chars(&t["las"]))),
             _ => String::new(),
         };
         if splittable(i, t) {
@@ -143,8 +149,8 @@ pub fn render_par_ext(def: &Value, lr: bool, split: bool) -> String {
             if splittable(i, t) {
                 let pat = format!("'{}'", chars(&t["pat"]["s"]));
                 let la = match t["la"].as_str().unwrap() {
-                    "pos" => format!(" ?= '{}'", chars(&t["las"])),
-                    "neg" => format!(" ?! '{}'", chars(&t["las"])),
+                    "pos" => format!(" ?= /{}/", la_regex(&chars(&t["las"]))),
+                    "neg" => format!(" ?! /{}/", la_regex(&chars(&t["las"]))),
                     _ => String::new(),
                 };
                 s.push_str(&format!("P{}: <{}>{}{} T{};\n", i + 1, states[..states.len() - 1].join(", "), pat, la, i + 1));
